@@ -41,6 +41,7 @@ COMPONENTS = {
         "bits.bips.bip143.witness_message, bits.sig, bits.wif_decode, bits.script.*, bits.ecmath.*",
     ],
     "stub": [
+        "thread scheduler for the concurrent stratum (2-3 simulated send_tx callers, line-level pre-emption inside tx/utils/ecmath/keys); package re-imported per run",
         "bitcoind: in-process JSON-RPC server behind bits.rpc.urlopen serving scantxoutset from a ledger, amounts as 8-decimal JSON text, seeded listing order, injected HTTP 500/401/refused/unsuccessful-scan",
         "UTXO ledger (transactions accepted by the reference validator are applied, so later sends spend earlier change outputs)",
         "entropy source (SimEntropy) and the clock read by rpc_method",
